@@ -1,5 +1,6 @@
 """C17 - Range and conditional requests describe exactly the bytes delivered."""
 import calendar
+import math
 import os
 import tempfile
 import shutil
@@ -36,6 +37,19 @@ TZS = ['UTC', 'Europe/Berlin', 'CET-1CEST,M3.5.0,M10.5.0/3', 'America/New_York',
 MTIMES = [1_600_000_000, 1_580_000_000, 1_594_000_000, 1585443600, 1585443600 - 1800, 1603587600, 1603587600 + 1800,
           1583650800, 1604210400, 1586016000, 1601740800]
 IMS_DELTAS = [-86400, -3600, -3599, -1, 0, 1, 1800, 3599, 3600, 86400]
+# BOUNDARY modification times (class: values of the clock at which a number changes its nature): the epoch itself and
+# its neighbours (0 is the one instant that is falsy), instants before 1970 (negative), sub-second stamps (the code
+# compares int(st_mtime): truncation toward zero, so -0.5 and 0.5 both read 0), the ends of the first day, the 32-bit
+# limits (2038, 1901, 2106), the leap day 2000 and the turn of the century 2100 (not a leap year), Y2K.  A file system
+# that cannot store one of them (clamps it) drops that value: see C17._edge_mtimes.
+MTIMES_EDGE = [0, 1, -1, 2, 0.5, -0.5, 1.5, 0.25, -1.75, 86399, 86400, -86400, -86401, 2 ** 31 - 1, 2 ** 31, 2 ** 31 + 0.5,
+               2 ** 32 - 1, 2 ** 32, -2 ** 31, 946684799, 946684800, 951782400, 951868800, 4102444800, 4107542400,
+               1_600_000_000.75]
+# If-Modified-Since header values that are NOT DATES AT ALL (class: a header that is present but names no instant):
+# empty, white space only, only the separator / a parameter of the obsolete `; length=` extension.  Such a header is no
+# condition: the answer is the one given without the header (200 / 206 / 416), never a 304 and never a 5xx.
+IMS_NONDATES = ['', ' ', '\t', '   ', ';', '; length=3', ' ;', ';;', ' ; length=5 ', ';length', '\t;\t']
+IMS_DELTAS_EDGE = [-86400, -2, -1, 0, 1, 2, 3600]
 
 
 class Zone:
@@ -143,8 +157,9 @@ class C17(Check):
     level_note_extra = 'date parsing, stat and file stability are assumed'
     anchors = ['ombott/static_stream.py', 'ombott/common_helpers.py']
     rule = ('headers from the RFC 7233 grammar and near misses x file lengths 0..40 and around a patched small '
-            'streaming buffer x read schedules x If-Modified-Since before/equal/after mtime (three HTTP date formats, own zone '
-            'offsets, junk) x modification times in winter / summer / the hours of the 2020 DST switches x the process '
+            'streaming buffer x read schedules x If-Modified-Since before/equal/after mtime (three HTTP date formats, own zone offsets, junk, and headers that are present but no date at all: empty, blank, only separators = no condition) '
+            'x BOUNDARY modification times (the epoch and its neighbours, before 1970, sub-second stamps on both sides of 0, '
+            'the ends of the first day, 2^31 / 2^32 / -2^31, Y2K, the leap days 2000 / 2100; st_mtime_ns goes to the model, which truncates like int(st_mtime)) x modification times in winter / summer / the hours of the 2020 DST switches x the process '
             'running under TZ = UTC, Europe/Berlin, a POSIX rule string, America/New_York, Australia/Sydney, Asia/Kolkata, '
             'Europe/Dublin x GET/HEAD on real temporary files; HEAD against GET header for header; the same requests through app(environ, start_response) of an application whose handler returns static_file(...) (status, header list, body); non-trivial = header contains "bytes=" (reaches the range arithmetic)')
     assumptions = ['email.utils.parsedate_tz and os.stat are taken as given: the parsed fields are shipped to the model, which '
@@ -165,6 +180,7 @@ class C17(Check):
         self.ss = static_stream
         self.tmp = tempfile.mkdtemp(prefix='c17_', dir=os.environ.get('VERIF_TMP'))
         self.mtime = 1_600_000_000
+        self._edges = None
 
     def _teardown(self):
         shutil.rmtree(self.tmp, ignore_errors=True)
@@ -175,8 +191,23 @@ class C17(Check):
         if not os.path.exists(p):
             with open(p, 'wb') as f:
                 f.write(bytes((i * 7 + 3) % 251 for i in range(n)))
-            os.utime(p, (mtime, mtime))
+            ns = round(mtime * 10 ** 9)
+            os.utime(p, ns=(ns, ns))
+            if os.stat(p).st_mtime_ns != ns:
+                raise RuntimeError(f'the scratch file system does not keep the modification time {mtime!r}')
         return p
+
+    def _edge_mtimes(self):
+        """the boundary modification times this file system stores exactly (others are clamped by it: dropped, counted)"""
+        if getattr(self, '_edges', None) is None:
+            self._edges = []
+            for t in MTIMES_EDGE:
+                try:
+                    self._file(1, t)
+                    self._edges.append(t)
+                except (RuntimeError, OSError, OverflowError, ValueError):
+                    pass
+        return self._edges
 
     def _static(self, n, method, rng_hdr, ims_hdr, maxread, mtime=None, tz=None):
         """run the real static_file (under time zone `tz`); returns (response, chunks|bytes)"""
@@ -296,7 +327,7 @@ class C17(Check):
                 return 'wsgi-304-body', f'{what}: 304 with a body'
             return None
         if gs == 304:
-            return ('wsgi-ims-304-older', f'{what}: 304') if exp_t is not None else None
+            return ('wsgi-ims-304-older', f'{what}: 304') if exp_t is not None and exp_t < math.floor(mtime) else None
         cl = self._hget(gh, 'Content-Length')
         if not h:
             if gs != 200:
@@ -334,6 +365,8 @@ class C17(Check):
         out = []
         try:
             gfr = self.ss.get_first_range
+            edges = self._edge_mtimes()
+            st['edge_mtimes_kept_by_fs'] = len(edges)
             for _ in range(n):
                 h = gen_header(rng)
                 L = rng.choice([0, 1, 2, 3, 5, 8, 10, 11, 12, 13, 40, 100])
@@ -354,17 +387,22 @@ class C17(Check):
                 L = rng.choice([0, 1, 2, 5, 7, 8, 9, 15, 16, 17, 33])
                 method = rng.choice(['GET', 'GET', 'HEAD'])
                 h = rng.choice([None, None, '']) if rng.random() < .25 else gen_header(rng)
-                mtime = rng.choice(MTIMES)
+                edge = bool(edges) and rng.random() < .3      # a boundary modification time (epoch, pre-1970, sub-second, 2^31..)
+                mtime = rng.choice(edges) if edge else rng.choice(MTIMES)
+                base, deltas = (math.floor(mtime), IMS_DELTAS_EDGE + [-math.floor(mtime)]) if edge else (mtime, IMS_DELTAS)
                 tz = rng.choice(TZS) if rng.random() < .6 else None
                 ims = None
-                k = rng.randrange(8)
-                if k < 5:       # a date around the modification time, in one of the three HTTP date formats
-                    t = mtime + rng.choice(IMS_DELTAS)
+                k = rng.randrange(9)
+                if k == 8:      # a header that is present but is no date at all (empty, blank, only separators)
+                    ims = rng.choice(IMS_NONDATES)
+                    st['ims_nondate'] = st.get('ims_nondate', 0) + 1
+                elif k < 5:       # a date around the modification time, in one of the three HTTP date formats
+                    t = base + rng.choice(deltas)
                     ims = http_date(t, rng.choice([0, 0, 0, 1, 2]))
                     if rng.random() < .1:
                         ims += rng.choice(['; length=5', ' ', ';'])
                 elif k == 5:    # a date carrying its own zone offset (parsedate_tz honours it)
-                    t = mtime + rng.choice(IMS_DELTAS)
+                    t = base + rng.choice(deltas)
                     off = rng.choice([-5, 1, 2, 10])
                     ims = time.strftime('%a, %d %b %Y %H:%M:%S ', time.gmtime(t + off * 3600)) + '%+03d00' % off
                 elif k == 6:
@@ -374,11 +412,16 @@ class C17(Check):
                 fields = ims_fields(ims)
                 if fields is None:
                     continue
-                r, chunks = self._static(L, method, h, ims, mr, mtime, tz)
+                try:
+                    r, chunks = self._static(L, method, h, ims, mr, mtime, tz)
+                    sc = r.status_code
+                except Exception as e:      # only a faulty tree raises here: reported as a disagreement, not a crash
+                    r, chunks, sc = None, None, '!' + type(e).__name__
                 st['tz_' + str(tz)] = st.get('tz_' + str(tz), 0) + 1
-                sc = r.status_code
                 st[f'static_{sc}'] = st.get(f'static_{sc}', 0) + 1
-                if sc == 304:
+                if r is None:
+                    ans = sc
+                elif sc == 304:
                     ans = '304'
                 elif sc == 416:
                     ans = '416'
@@ -389,14 +432,20 @@ class C17(Check):
                     body = '~' if method == 'HEAD' else hb(chunks)
                     ans = f'{sc} cl={r.headers["Content-Length"]} body={body}'
                 data = open(self._file(L, mtime), 'rb').read()
-                out.append((f'range static {hb(data)} - {1 if method == "HEAD" else 0} {opt(h, hs)} '
-                            f'{fields} {mtime} {mr}', ans,
+                if edge:        # the model is given st_mtime_ns and does the int(st_mtime) of the code itself
+                    st['edge_mtime'] = st.get('edge_mtime', 0) + 1
+                    st[f'edge_mtime_{sc}'] = st.get(f'edge_mtime_{sc}', 0) + 1
+                    op, mt = 'staticns', os.stat(self._file(L, mtime)).st_mtime_ns
+                else:
+                    op, mt = 'static', mtime
+                out.append((f'range {op} {hb(data)} - {1 if method == "HEAD" else 0} {opt(h, hs)} '
+                            f'{fields} {mt} {mr}', ans,
                             dict(kind='static', len=L, method=method, range=h, ims=ims, maxread=mr, mtime=mtime, tz=tz)))
                 if rng.random() < .5:       # the same request through app(environ, start_response)
                     wsc, wh, wc = self._wsgi(L, method, h, ims, mr, mtime, tz)
                     st['via_wsgi'] = st.get('via_wsgi', 0) + 1
-                    out.append((f'range static {hb(data)} - {1 if method == "HEAD" else 0} {opt(h, hs)} '
-                                f'{fields} {mtime} {mr}', self._wsgi_answer(method, wsc, wh, wc),
+                    out.append((f'range {op} {hb(data)} - {1 if method == "HEAD" else 0} {opt(h, hs)} '
+                                f'{fields} {mt} {mr}', self._wsgi_answer(method, wsc, wh, wc),
                                 dict(kind='static', via='wsgi', len=L, method=method, range=h, ims=ims, maxread=mr,
                                      mtime=mtime, tz=tz)))
             # the date arithmetic by itself against calendar.timegm
@@ -456,8 +505,10 @@ class C17(Check):
                 if r.body:
                     return '304-body', '304 with a body'
                 return None
-            if sc == 304:
+            if sc == 304 and exp_t < math.floor(mtime):       # older even at the one-second resolution of an HTTP date
                 return 'ims-304-older' + self._zone_class(tz), f'If-Modified-Since {where}: older than the file, answered 304'
+            if sc == 304:
+                return None
         elif sc == 304:
             return None        # a date this oracle has no independent reading of
         if not h:
@@ -498,6 +549,36 @@ class C17(Check):
                 return 'rfc-416', f'{h!r} on {L} bytes is satisfiable ({exp}) but got 416'
         else:
             return 'range-status', f'Range header answered {sc}'
+        return None
+
+    def _oracle_nondate(self, L, method, h, ims, mr, wsgi):
+        """an If-Modified-Since header that is no date at all is no condition: the answer (status, entity headers, body)
+        is the one given without the header - called directly or through the application; never 304, never a failure"""
+        what = (f'{method} {"through the application" if wsgi else "static_file"}, Range {h!r}, {L} bytes, '
+                f'If-Modified-Since {ims!r} (not a date)')
+        key = 'wsgi-ims-nondate' if wsgi else 'ims-nondate'
+
+        def run(i):
+            if wsgi:
+                sc, hd, ch = self._wsgi(L, method, h, i, mr)
+                return [sc] + [self._hget(hd, k) for k in self.HDRS] + [b''.join(ch)]
+            r, chunks = self._static(L, method, h, i, mr)
+            body = chunks if isinstance(chunks, bytes) else b''.join(chunks or [])
+            return [r.status_code] + [str(r.headers.get(k)) for k in self.HDRS] + [body]
+        try:
+            base = run(None)
+        except Exception as e:
+            return key + '-baseline-raises', f'{what}: even without the header: {type(e).__name__}: {e}'
+        try:
+            got = run(ims)
+        except Exception as e:
+            return key + '-raises', f'{what}: {type(e).__name__}: {e}'
+        if got[0] >= 500:
+            return key + '-5xx', f'{what}: answered {got[0]}'
+        if got[0] == 304:
+            return key + '-304', f'{what}: answered 304'
+        if got != base:
+            return key + '-differs', f'{what}: {got[:-1]} / {len(got[-1])} bytes, without the header {base[:-1]} / {len(base[-1])} bytes'
         return None
 
     def _oracle_head_pair(self, L, h, mr):
@@ -544,6 +625,14 @@ class C17(Check):
                     cases.append((5, 'GET', None, http_date(mtime, 1), 4, mtime, tz))
                     cases.append((5, 'GET', None, http_date(mtime + 1800, 2), 4, mtime, tz))
                     cases.append((5, 'GET', 'bytes=0-1', http_date(mtime, 0), 4, mtime, tz))
+            # boundary modification times (epoch, before 1970, sub-second, 32-bit limits, leap days) x dates around them
+            edges = self._edge_mtimes()
+            for mtime in edges:
+                fl = math.floor(mtime)
+                for d in IMS_DELTAS_EDGE + [-fl]:          # ... and the epoch date itself against every such file
+                    for m in ('GET', 'HEAD'):
+                        cases.append((5, m, None, http_date(fl + d, 0), 4, mtime, None))
+                    cases.append((5, 'GET', 'bytes=0-1', http_date(fl + d, 2), 4, mtime, rng.choice(TZS)))
             for _ in range(n // 4):
                 L = rng.choice([0, 1, 2, 5, 7, 8, 9, 15, 16, 17, 33])
                 mtime = rng.choice(MTIMES)
@@ -567,6 +656,7 @@ class C17(Check):
                                 'bytes=5', 'bytes=', 'bytes=0-1,3-4', 'junk')]
             wcases += [(5, h, http_date(self.mtime + d), 4, None, tz) for h in (None, 'bytes=0-1') for d in (-1, 0, 3600)
                        for tz in (None, 'Europe/Berlin', 'Europe/Dublin')]
+            wcases += [(5, None, http_date(math.floor(mt) + d), 4, mt, None) for mt in edges for d in (-1, 0, 1)]
             for s in seeds:
                 if s.get('kind') == 'static':
                     wcases.append((s['len'], s['range'], s.get('ims'), s['maxread'], s.get('mtime'), s.get('tz')))
@@ -585,6 +675,19 @@ class C17(Check):
                 if bad:
                     findings.append(Finding(f'C17:{bad[0]}', bad[1],
                                             dict(wsgi=True, len=c[0], range=c[1], ims=c[2], maxread=c[3], mtime=c[4], tz=c[5])))
+            # a present If-Modified-Since header that is no date at all x direct / through the application x GET / HEAD x Range
+            for ims in IMS_NONDATES:
+                for wsgi in (False, True):
+                    for m in ('GET', 'HEAD'):
+                        for L, h in ((5, None), (5, 'bytes=1-3'), (5, 'bytes=9-'), (0, None)):
+                            evals += 1
+                            try:
+                                bad = self._oracle_nondate(L, m, h, ims, 4, wsgi)
+                            except Exception as e:
+                                bad = ('exception', f'{type(e).__name__}: {e}')
+                            if bad:
+                                findings.append(Finding(f'C17:{bad[0]}', bad[1], dict(nondate=True, len=L, method=m, range=h,
+                                                                                   ims=ims, maxread=4, wsgi=wsgi)))
             # HEAD against GET, header for header
             pairs = [(L, f'bytes={a}-{b}', 3) for L in (0, 1, 5, 8) for a in ('', '0', '3', '9') for b in ('', '0', '4', '99')]
             pairs += [(L, h, 3) for L in (0, 5) for h in (None, '', 'bytes=5', 'bytes=', 'bytes=1-2,4-5', 'junk')]
@@ -611,7 +714,9 @@ class C17(Check):
             out.update(line=data['line'], recorded_impl=data.get('observed_impl'), recorded_model=data.get('observed_model'))
         self._setup()
         try:
-            if i.get('wsgi'):
+            if i.get('nondate'):
+                out['oracle'] = self._oracle_nondate(i['len'], i['method'], i['range'], i['ims'], i['maxread'], i['wsgi'])
+            elif i.get('wsgi'):
                 out['oracle'] = self._oracle_wsgi(i['len'], i['range'], i.get('ims'), i['maxread'], i.get('mtime'), i.get('tz'))
                 for m in ('GET', 'HEAD'):
                     sc, hd, ch = self._wsgi(i['len'], m, i['range'], i.get('ims'), i['maxread'], i.get('mtime'), i.get('tz'))
